@@ -159,7 +159,11 @@ func vDistinct(tk []vTick) {
 // C21: ticks (any order, nanosecond timestamps) -> candles of one timeframe.
 func VerifC21TickCandles() {
 	k := int(rt.Fix(rt.Int("tf", 0, 3)))
-	n := int(rt.Fix(rt.Int("rows", 1, 3)))
+	maxRows := int64(3)
+	if rt.Tier() == 1 {
+		maxRows = 4
+	}
+	n := int(rt.Fix(rt.Int("rows", 1, maxRows)))
 	tk, ep, ns, px := vTicks(n, vTfs[k].sec, 2)
 	vDistinct(tk)
 	rt.Reach("entered")
@@ -173,7 +177,11 @@ func VerifC22Compose() {
 	pairs := [][2]int{{0, 1}, {1, 2}, {2, 3}, {4, 0}}
 	p := pairs[int(rt.Fix(rt.Int("pair", 0, 3)))]
 	fine, coarse := vTfs[p[0]], vTfs[p[1]]
-	n := int(rt.Fix(rt.Int("rows", 1, 3)))
+	maxRows := int64(3)
+	if rt.Tier() == 1 {
+		maxRows = 4
+	}
+	n := int(rt.Fix(rt.Int("rows", 1, maxRows)))
 	// rows spread over the fine windows of one or two coarse windows
 	ratio := coarse.sec / fine.sec
 	// fine windows: the first two and the last of coarse window 0, the first of coarse window 1
